@@ -205,3 +205,91 @@ package mqtt
 //@   ensures[C06] flag != 0 ==> result1 != nil
 //@   ensures[C06] len(contents) < 2 ==> result1 != nil
 //@   ensures[C06,C07] result1 == nil ==> result0 == p && result0.ID == uint16(contents[0])<<8|uint16(contents[1])
+
+//@ func (*pktPubRec).Pack
+//@   mode int
+//@   props C05
+//@   pure
+//@   freshresult
+//@   requires p != nil
+//@   ensures[C04,C05] seqEq(seqOf(result), specAck(0x50, p.ID))
+
+//@ func (*pktPubRel).Pack
+//@   mode int
+//@   props C05
+//@   pure
+//@   freshresult
+//@   requires p != nil
+//@   ensures[C02,C05,C12] seqEq(seqOf(result), specAck(0x62, p.ID))
+
+//@ func (*pktPubComp).Pack
+//@   mode int
+//@   props C05
+//@   pure
+//@   freshresult
+//@   requires p != nil
+//@   ensures[C04,C05] seqEq(seqOf(result), specAck(0x70, p.ID))
+
+//@ func (*pktPubRec).Parse
+//@   mode int
+//@   props C06
+//@   assigns p.ID
+//@   requires p != nil
+//@   ensures[C06] flag != 0 ==> result1 != nil
+//@   ensures[C06] len(contents) < 2 ==> result1 != nil
+//@   ensures[C06,C07] result1 == nil ==> result0 == p && result0.ID == uint16(contents[0])<<8|uint16(contents[1])
+
+//@ func (*pktPubRel).Parse
+//@   mode int
+//@   props C06
+//@   assigns p.ID
+//@   requires p != nil
+//@   ensures[C06] flag != 2 ==> result1 != nil
+//@   ensures[C06] len(contents) < 2 ==> result1 != nil
+//@   ensures[C04,C06] result1 == nil ==> result0 == p && result0.ID == uint16(contents[0])<<8|uint16(contents[1])
+
+//@ func (*pktPubComp).Parse
+//@   mode int
+//@   props C06
+//@   assigns p.ID
+//@   requires p != nil
+//@   ensures[C06] flag != 0 ==> result1 != nil
+//@   ensures[C06] len(contents) < 2 ==> result1 != nil
+//@   ensures[C06,C07] result1 == nil ==> result0 == p && result0.ID == uint16(contents[0])<<8|uint16(contents[1])
+
+//@ func (*pktUnsubAck).Parse
+//@   mode int
+//@   props C06
+//@   assigns p.ID
+//@   requires p != nil
+//@   ensures[C06] flag != 0 ==> result1 != nil
+//@   ensures[C06] len(contents) < 2 ==> result1 != nil
+//@   ensures[C06,C07] result1 == nil ==> result0 == p && result0.ID == uint16(contents[0])<<8|uint16(contents[1])
+
+//@ func (*pktPingResp).Parse
+//@   mode int
+//@   props C06
+//@   pure
+//@   requires p != nil
+//@   ensures[C06] flag != 0 ==> result1 != nil
+//@   ensures[C06] result1 == nil ==> result0 == p
+
+//@ func (*pktConnAck).Parse
+//@   mode int
+//@   props C06
+//@   pure
+//@   freshresult
+//@   requires p != nil
+//@   ensures[C06] flag != 0 ==> result1 != nil
+//@   ensures[C06] len(contents) != 2 ==> result1 != nil
+//@   ensures[C06,C16] result1 == nil ==> result0 != nil && result0.Code == ConnectionReturnCode(contents[1]) && result0.SessionPresent == (contents[0]&1 != 0)
+
+//@ func (*pktSubAck).Parse
+//@   mode int
+//@   props C06
+//@   assigns p.ID; p.Codes
+//@   requires p != nil
+//@   loop 1 invariant true
+//@   ensures[C06] flag != 0 ==> result1 != nil
+//@   ensures[C06] len(contents) < 2 ==> result1 != nil
+//@   ensures[C06,C07] result1 == nil ==> result0 == p && result0.ID == uint16(contents[0])<<8|uint16(contents[1])
